@@ -49,7 +49,7 @@ EXTRA_WRONG = {
 CSV_FAULTS = ["empty", "header-only", "ragged-short", "ragged-long", "non-numeric", "missing-column", "dup-headers", "quoted-newline", "nul-byte",
               "non-utf8", "huge-field", "nan", "inf", "1e400", "blank-lines", "bom", "only-newlines", "spaces"]
 NC_FAULTS = ["no-such-variable", "not-a-netcdf-file", "empty-file", "template-variable-missing", "template-without-dimension-variables", "result-named-like-dimension",
-             "negative-as-positive", "out-of-range-as-fuzzy", "missing-value-not-a-number", "scalar-variable", "string-variable", "duplicate-output-names", "unwritable-output"]
+             "negative-as-positive", "out-of-range-as-fuzzy", "missing-value-not-a-number", "scalar-variable", "string-variable", "duplicate-output-names", "unwritable-output", "misspelt-type-name", "number-as-type-name", "list-as-type-name"]
 EDIT_CHARS = ["\x00", "\ufeff", '"', "'", "\\", "(", ")", "[", "]", ",", ":", "=", "#", "\n", "\r", "\t", " ", "1", ".", "-", "e", "é", "\\x", "\\u12", "\\N{", "\\"]
 
 
@@ -518,6 +518,8 @@ def run_fault(ctx, case):
         m, exp = inj
     d = ctx.scratch()
     models.write_table(m["table"], d)
+    if case["rseed"] % 3 == 0 and exp["fault"] not in ("duplicate-result",):
+        m = dict(m, commands=list(reversed(m["commands"])))       # consumers written before the commands they use (the order is free)
     text, _ = models.to_text(m)
     tag = "fault:%s:%s" % (exp["fault"], exp.get("variant") or exp.get("declared") or "-")
     ctx.feature(("fault", exp["fault"], exp["cmd"], exp.get("param"), exp.get("variant")))
@@ -687,6 +689,16 @@ def run_nc(ctx, case):
                 v = ds.createVariable("Odd", "S1", ("nchar",))
                 v[:] = numpy.array(list("abcd"), dtype="S1")
         reads[0]["args"]["InFieldName"] = "Odd"
+    elif f in ("misspelt-type-name", "number-as-type-name", "list-as-type-name"):
+        bad_ = {"misspelt-type-name": rng.choice(["Fuzy", "Double", "float"]), "number-as-type-name": 4, "list-as-type-name": ["Float"]}[f]
+        reads[0]["args"]["DataType"] = bad_
+        reads[0].setdefault("raw_ast", {})["DataType"] = ({"t": "ustr", "v": bad_, "cls": "word"} if isinstance(bad_, str) else {"t": "int", "v": 4, "text": "4"} if isinstance(bad_, int)
+                                                           else {"t": "list", "items": [{"t": "ustr", "v": "Float", "cls": "word"}], "trail": False})
+        # consumers written before the read (fuzzy operators and conversions among them), then the read
+        m["commands"] = [c for c in m["commands"] if c is not reads[0]] + [reads[0]]
+        m["commands"].insert(0, {"result": "Early_%d" % (case["rseed"] % 97), "cmd": rng.choice(["Sum", "CvtToFuzzy", "Copy"]), "args": ({"InFieldNames": [reads[0]["result"]]} if False else {"InFieldName": reads[0]["result"]})})
+        if m["commands"][0]["cmd"] == "Sum":
+            m["commands"][0]["args"] = {"InFieldNames": [reads[0]["result"], reads[0]["result"]]}
     elif f == "duplicate-output-names" and writes:
         writes[0]["args"]["OutFieldNames"] = writes[0]["args"]["OutFieldNames"] * 2
     elif f == "unwritable-output" and writes:
